@@ -111,6 +111,42 @@ bm.BaseProxy._address_to_local = PerProcessDict()
 class _Net:
     listeners = {}
     conns = []
+    accepter_tid = None
+
+
+class Guided(vs.Choices):
+    """The explored choice sequence of part (c).  While a client establishes
+    a connection (socketpair, accept, thread start, authentication handshake)
+    the scheduler is steered to the vthreads taking part in it and no decision
+    is recorded: every step of that phase touches only the new connection, so
+    it commutes with every step of every other vthread and is scheduled as
+    one atomic step (a standard independence reduction; which client connects
+    first is still an explored decision)."""
+    group = None
+
+    def next(self, n, costs=None, label=''):
+        g = self.group
+        if g is not None and label.startswith('sched:'):
+            for i, tok in enumerate(label[6:].split(',')):
+                if not tok.endswith('T') and g(int(tok)):
+                    return i
+        return vs.Choices.next(self, n, costs, label)
+
+
+class _connecting:
+    def __enter__(self):
+        vt = current()
+        self.ch = ch = vt.sched.choices if vt is not None else None
+        if isinstance(ch, Guided) and ch.group is None:
+            me, first_new, acc = vt.tid, len(vt.sched.threads), \
+                _Net.accepter_tid
+            ch.group = lambda t: t == me or t == acc or t >= first_new
+        else:
+            self.ch = None
+
+    def __exit__(self, *a):
+        if self.ch is not None:
+            self.ch.group = None
 
 
 class VListener:
@@ -134,14 +170,15 @@ def VClient(address, family=None, authkey=None):
     lst = _Net.listeners.get(address)
     if lst is None:
         raise ConnectionRefusedError(111, 'Connection refused')
-    c, s = bconn.Pipe(duplex=True)
-    _Net.conns.extend((c, s))
-    lst.backlog.put(s)
     if authkey is not None and not isinstance(authkey, bytes):
         raise TypeError('authkey should be a byte string')
-    if authkey is not None:
-        bconn.answer_challenge(c, authkey)
-        bconn.deliver_challenge(c, authkey)
+    with _connecting():
+        c, s = bconn.Pipe(duplex=True)
+        _Net.conns.extend((c, s))
+        lst.backlog.put(s)
+        if authkey is not None:
+            bconn.answer_challenge(c, authkey)
+            bconn.deliver_challenge(c, authkey)
     return c
 
 
@@ -207,7 +244,7 @@ class Env:
     """One execution: world, scheduler, the real server and its accepter."""
 
     def __init__(self, prefix=(), max_steps=200000):
-        self.choices = vs.Choices(prefix)        # the explored phase only
+        self.choices = Guided(prefix)            # the explored phase only
         self.sched = vs.Scheduler(vs.Choices(), timer_deviation=False,
                                   max_steps=max_steps)
         self.log = []
@@ -227,8 +264,9 @@ class Env:
         # serve_forever() creates this before starting the accepter
         self.server.stop_event = bm.threading.Event()
         self.mgr._address = self.server.address   # as start() does
-        self.sched.spawn(self.server.accepter, 'accepter', pid=SERVER_PID,
-                         daemon=True)
+        _Net.accepter_tid = self.sched.spawn(
+            self.server.accepter, 'accepter', pid=SERVER_PID,
+            daemon=True).tid
         return self
 
     def __exit__(self, *a):
